@@ -765,7 +765,10 @@ let run_c14 ic =
              else check_order_dpkg (explode a) (explode b) (explode c) (explode d) in
            if clauses <> [] then begin
              incr n_fail;
-             report (t.(1) ^ "/" ^ fmt) true (List.map c14_clause_name clauses) []
+             (* known finding: epoch 4294967295 is rpmpack's "no epoch" value - the package is written without an epoch *)
+             let kf = if fmt = "rpm" && t.(1) = "o-big-epoch-4294967295" && List.map c14_clause_name clauses = ["epoch-dominates"]
+                         && String.length c > 0 && c.[0] = '|' then ["rpm-epoch-4294967295-is-no-epoch"] else [] in
+             report ~kf (t.(1) ^ "/" ^ fmt) true (List.map c14_clause_name clauses) []
                [Printf.sprintf "prerelease build %S, release %S, higher epoch %S, higher patch %S" a b c d]
            end
          end
